@@ -121,6 +121,10 @@ HistCodes(e) ==
     \cup (IF e.probes[i].eerru # e.probes[i].eerrf THEN {<<"C11.encodeErr", i>>} ELSE {})
     \cup (IF e.probes[i].du # e.probes[i].df THEN {<<"C11.decodeValue", i>>} ELSE {})
     \cup (IF e.probes[i].derru # e.probes[i].derrf THEN {<<"C11.decodeErr", i>>} ELSE {})
+    \* whatever happened before, what a one-shot encode emits is one well-formed value denoting its argument (C02)
+    \cup (IF "hasv" \in DOMAIN e.probes[i] /\ e.probes[i].hasv = 1 /\ e.probes[i].eerru = 0
+          THEN {<<c[1], i>> : c \in DenotesCodes([n |-> e.probes[i].v.n, T |-> e.probes[i].T], e.probes[i].eu, e.probes[i].v.r)}
+          ELSE {})
     : i \in 1..Len(e.probes)}
   \cup (IF e.va # e.vb THEN {<<"C11.mutatedValue", 0>>} ELSE {})
   \cup (IF e.ba # e.bb THEN {<<"C11.mutatedBytes", 0>>} ELSE {})
@@ -148,7 +152,7 @@ ExtractCodes(e) ==
   ELSE
   (IF e.panic = 1 THEN {<<"C16.panic", 0>>} ELSE {})
   \cup (IF e.ofpanic = 1 THEN {<<"C16.typeMapOfPanic", 0>>} ELSE {})
-  \cup (IF e.same = 0 THEN {<<"C16.entryPointsDiffer", 0>>} ELSE {})
+  \cup (IF e.same = 0 THEN {<<"diag.entryPointsDiffer", 0>>} ELSE {})
   \cup (IF e.panic = 1 THEN {} ELSE
         LET T == e.T
             reach == TClosure(T, {e.root})
